@@ -25,6 +25,9 @@ def check(prog, ctx):
              '(iterator range [begin+lo, begin+hi) with lo <= i1+1 and hi >= i2+1)', 4)
     ctx.rule('C08.d', 'prefactor degree: every extremum returned scales like Interpolate: knot values are multiplied by the prefactor and the '
              'min/max selection is exchanged for a negative prefactor', 4)
+    ctx.rule('C08.f', 'the integral and extremum queries are functions of the table, the prefactor and their arguments only: every field they '
+             'read (transitively) is written at construction time only, or is the prefactor (written by its two setters), or belongs to the '
+             'search cache used through Locate; any other field is history-carrying state', 8)
     ctx.rule('C08.e', '2D global extrema range over all rows and all columns and scale with the prefactor of either sign', 2)
     f_eval, T, roles = evaluator_roles(prog, ctx)
     if roles is None:
@@ -32,6 +35,7 @@ def check(prog, ctx):
     integrate(prog, ctx, roles)
     extrema(prog, ctx, roles)
     extrema2d(prog, ctx)
+    extrema_state(prog, ctx)
 
 
 def integrate(prog, ctx, roles):
@@ -213,32 +217,46 @@ def extrema(prog, ctx, roles):
         f1 = Function(INT, real=True)(Symbol('obj:this'), x1)
         f2 = Function(INT, real=True)(Symbol('obj:this'), x2)
         MM = sp.Min if want_min else sp.Max
-        same = [o for o in outs if o.cond == sp.Eq(i1, i2)]
-        diff = [o for o in outs if o.cond == sp.Ne(i1, i2)]
-        if len(same) != 1 or len(diff) != 1:
-            ctx.undecided('C08.c', name + ':branches', fn, 'expected the two branches i1==i2 / i1!=i2, found conditions %s' % [str(o.cond) for o in outs])
-            continue
-        oks = is_zero(same[0].value - MM(f1, f2))
-        ctx.decide('C08.c', name + ':one-segment', fn, oks, 'within one segment the extremum is at an end (pieces are monotone)',
-                   'one-segment branch returns %s' % same[0].value)
-        v = diff[0].value
-        if not isinstance(v, MM):
-            ctx.violated('C08.c', name + ':knots', fn, 'multi-segment branch does not return %s(...): %s' % (MM.__name__, v))
-            continue
-        args = list(v.args)
-        rest = [a for a in args if not (a == f1 or a == f2)]
-        ends_ok = f1 in args and f2 in args
-        if not ends_ok or len(rest) != 1:
-            ctx.violated('C08.c', name + ':knots', fn, 'candidates are %s, expected {f(x1), f(x2), knot extremum}' % args)
-            continue
-        Yname = 'this.' + [f_['name'] for f_ in prog.classes[L + 'Interpolation']['fields'] if f_['name'] == 'function_values'][0] \
-            if False else None
-        # ordinate array: the one named by the element extremum; must be the evaluator's F0 source -> checked by C01; here by field init
-        K = rest[0]
-        els = [a for a in K.atoms(sp.core.function.AppliedUndef) if a.func.__name__ in ('MINEL', 'MAXEL')]
-        Yn = str(els[0].args[0])[4:] if els else '?'
-        knot_term_ok(K, P, Yn, i1 + 1, i2 + 1, want_min, ctx, fn, name + ':knots', 'C08.c', 'C08.d')
-        Ycands = Yn
+        # every return path: for each distance d = i2 - i1 on which the path is taken, the candidates must contain
+        # both ends and every knot in (i1, i1+d]
+        covered = set()
+        npath = 0
+        for o in outs:
+            ds = [d for d in (0, 1, 2, 3, 6) if o.cond.subs(i2, i1 + d) == S.true]
+            und = [d for d in (0, 1, 2, 3, 6) if o.cond.subs(i2, i1 + d) not in (S.true, S.false)]
+            if und:
+                ctx.undecided('C08.c', name + ':branches', fn, 'path condition %s is not decided by i2-i1' % o.cond)
+                continue
+            if not ds:
+                continue
+            npath += 1
+            covered |= set(ds)
+            v = o.value
+            args = list(v.args) if isinstance(v, MM) else [v]
+            rest = [a_ for a_ in args if not (a_ == f1 or a_ == f2)]
+            tag = 'one-segment' if ds == [0] else 'knots'
+            inst = name + ':' + tag + ('' if npath <= 2 else '#%d' % npath)
+            if not (f1 in args and f2 in args):
+                ctx.violated('C08.c', inst, fn, 'candidates %s do not contain both end values f(x1), f(x2)' % args)
+                continue
+            if not rest:
+                ok0 = ds == [0]
+                ctx.decide('C08.c', inst, fn, ok0, 'within one segment the extremum is at an end (pieces are monotone)',
+                           'for i2-i1 in %s only the two end values are compared: the %d knot(s) between x1 and x2 are never inspected'
+                           % ([d for d in ds if d > 0], max(ds)),
+                           witness={'i2-i1': max(ds), 'path': str(o.cond)} if not ok0 else None)
+                continue
+            if len(rest) != 1:
+                ctx.violated('C08.c', inst, fn, 'candidates are %s, expected {f(x1), f(x2), knot extremum}' % args)
+                continue
+            K = rest[0]
+            els = [a_ for a_ in K.atoms(sp.core.function.AppliedUndef) if a_.func.__name__ in ('MINEL', 'MAXEL')]
+            Yn = str(els[0].args[0])[4:] if els else '?'
+            knot_term_ok(K, P, Yn, i1 + 1, i2 + 1, want_min, ctx, fn, inst, 'C08.c', 'C08.d')
+            Ycands = Yn
+        miss = [d for d in (0, 1, 2, 3, 6) if d not in covered]
+        if miss:
+            ctx.violated('C08.c', name + ':coverage', fn, 'no return path for i2-i1 in %s' % miss)
     for name, want_min in (('Global_Minimum', True), ('Global_Maximum', False)):
         fn = prog.fn(Q + name, 0)
         sx = Symx(prog, fn)
@@ -302,3 +320,81 @@ def extrema2d(prog, ctx):
             probs.append('loop does not range over the grid ordinates')
         ctx.decide('C08.e', inst, fn, not probs, 'prefactor*min over all rows and columns (max for a negative prefactor)', '; '.join(probs),
                    form='row: %s; overall: %s' % (A, B))
+
+
+def extrema_state(prog, ctx):
+    from .C09 import field_reads, field_writes, locate_and_helpers
+    loc, closure = locate_and_helpers(prog)
+    search = {loc.q} | closure
+    for cq, names in ((L + 'Interpolation', ('Integrate', 'Local_Minimum', 'Local_Maximum', 'Global_Minimum', 'Global_Maximum')),
+                      (L + 'Interpolation_2D', ('Global_Minimum', 'Global_Maximum', 'Interpolate'))):
+        members = [f for f in prog.all_functions() if f.cls == cq]
+        writers = {}
+        for f in members:
+            for fld in field_writes(f):
+                writers.setdefault(fld, set()).add(f)
+        callers = {}
+        for f in members:
+            for c_ in calls(f):
+                q = (c_.get('callee') or {}).get('q')
+                if q:
+                    callers.setdefault(q, set()).add(f)
+
+        def ctor_only(f, seen=()):
+            if f.d.get('ctor'):
+                return True
+            cs = callers.get(f.q, set())
+            return bool(cs) and all(g is f or (g not in seen and ctor_only(g, seen + (f,))) for g in cs)
+        cache = set(field_writes(loc)) if cq == L + 'Interpolation' else set()
+        helper_fields = set(fl['name'] for fl in prog.classes[cq]['fields'] if fl['ty'] == L + 'Interpolation')
+        for name in names:
+            for fn in [f for f in members if f.name == name]:
+                # transitive in-class callees except the search
+                todo, seen = [fn], set()
+                reads = {}
+                while todo:
+                    g = todo.pop()
+                    if g.sig in seen or g.q in search:
+                        continue
+                    seen.add(g.sig)
+                    for fld, node in field_reads(g).items():
+                        reads.setdefault(fld, g)
+                    for fld in field_writes(g):
+                        reads.setdefault(fld, g)
+                    for c_ in calls(g):
+                        cc = c_.get('callee') or {}
+                        if cc.get('cls') == cq and cc.get('inrepo'):
+                            for h in prog.fns(cc['q']):
+                                todo.append(h)
+                bad = []
+                for fld, g in reads.items():
+                    ws = writers.get(fld, set())
+                    if all(ctor_only(w) for w in ws):
+                        continue
+                    if ws and all(w.d.get('ctor') or w.name in ('Set_Prefactor', 'Multiply') for w in ws):
+                        continue
+                    if fld in cache or fld in helper_fields:
+                        continue
+                    bad.append('%s (read in %s, written by %s)' % (fld, g.name, sorted(w.name for w in ws if not w.d.get('ctor'))))
+                inst = '%s::%s:state' % (cq.replace(L, ''), name)
+                if not bad:
+                    ctx.holds('C08.f', inst, fn, 'reads only construction-time fields, the prefactor and the search cache (%d fields)' % len(reads))
+                    continue
+                # cached state: definitely stale if some writer of an input of the cache does not touch the cache at all
+                B = set(b_.split(' ')[0] for b_ in bad)
+                fillers = set(w for fld in B for w in writers.get(fld, set()) if not w.d.get('ctor'))
+                stale = []
+                for w in fillers:
+                    for p in field_reads(w):
+                        if p in B:
+                            continue
+                        for S_ in writers.get(p, set()):
+                            if S_.d.get('ctor') or S_ in fillers or ctor_only(S_):
+                                continue
+                            if not (set(field_writes(S_)) & B):
+                                stale.append('%s changes `%s` (an input of the cached value computed in %s) without touching the cache' % (S_.name, p, w.name))
+                if stale:
+                    ctx.violated('C08.f', inst, fn, 'returns cached state %s that goes stale: %s' % (sorted(B), sorted(set(stale))),
+                                 witness={'fields': bad, 'stale': sorted(set(stale))})
+                else:
+                    ctx.undecided('C08.f', inst, fn, 'depends on cached state %s whose invalidation protocol is outside the understood fragment' % bad)
